@@ -229,13 +229,21 @@ def r08_4_dimension_rule(chk):
     three = [(c, t) for c, t in fp.alts if t[0] == "tuple" and len(t[1]) == 3]
     two = [(c, t) for c, t in fp.alts if t[0] == "tuple" and len(t[1]) == 2]
     ok = bool(three) and bool(two)
+    def at_least_2(c, nd):
+        c = [int_norm(l) for l in c]
+        return ("cmp", ">=", nd, K(2)) in c or ("cmp", "==", nd, K(2)) in c
+
+    def at_most_1(c, nd):
+        c = [int_norm(l) for l in c]
+        return ("cmp", "<=", nd, K(1)) in c or ("cmp", "==", nd, K(1)) in c or \
+            (("cmp", "<=", nd, K(2)) in c and ("cmp", "!=", nd, K(2)) in c)
     for c, t in three:
         w = t[1][2]
         good = w[0] == "sub" and w[2] == K(-1) and w[1][0] == "attr" and w[1][2] == "shape"
         row0 = w[1][1] if good else row0
-        ok = ok and good and any(int_norm(l) == ("cmp", ">=", A(row0, "ndim"), K(2)) for l in c)
+        ok = ok and good and at_least_2(c, A(row0, "ndim"))
     if row0 is not None:
-        ok = ok and all(any(int_norm(l) in (("cmp", "<=", A(row0, "ndim"), K(1)),) for l in c) for c, t in two)
+        ok = ok and all(at_most_1(c, A(row0, "ndim")) for c, t in two)
         ok = ok and any(any(int_norm(l) == ("cmp", ">=", A(row0, "ndim"), K(3)) for l in pc) for pc, _, _ in fp.raises)
     chk.require(ok and row0 is not None, "R08.4", "row-layout-2d-width-and-3d-rejected",
                 "the chunk layout does not use shape[-1] for 2-D data (and only then) and reject more than two dimensions",
